@@ -290,7 +290,11 @@ def write_evidence(pid, spec, tier, report, wall, nviol, known_hits):
         "known_findings_reproduced": [{"signature": k["signature"], "count": f.get("count", 1)} for k, f in known_hits],
         "technique": spec.get("technique", ""),
     }
+    reserved = {"programs": int, "obligations": int, "discharged": int, "disagreements_checked": int,
+                "checker_cmd": str, "trusted_base": list, "explanation": str}
     for k, v in report.get("extra", {}).items():
+        if k in reserved and not isinstance(v, reserved[k]):
+            k = k + "_list"       # schema-typed key used by a check for something else: keep it, under another name
         cov.setdefault(k, v)
     ev = {
         "property_id": pid, "tier": tier, "seed": seed(), "level": "model_checking",
